@@ -831,7 +831,7 @@ pub fn opt_arc_as_ref<T: ?Sized>(o: &Option<Arc<T>>) -> (r: Option<&T>)
 ''')
     u.text('use crate::std::io::Seek;\nuse crate::std::io::SeekFrom;\nuse crate::call_populate;\n')
     im = u.item('src/stack.rs', ['impl Cache'])
-    im.drop_members_except({'get_or_update'})
+    im.drop_members_except({'get_or_update', 'ensure'})
     g = u.under_contract(im.sub(['fn get_or_update']), ['C13', 'C14', 'C19', 'C01', 'C03', 'C02', 'C16', 'C18', 'C11', 'C15'])
     g.air = r'stack::(Cache|impl&%\d+)::get_or_update(::get_tempfile)?'
     g.add_param(W)
@@ -946,6 +946,37 @@ pub fn opt_arc_as_ref<T: ?Sized>(o: &Option<Arc<T>>) -> (r: Option<&T>)
     g.insert_before('let mut tmp = tempfile :: tempfile ( ) ? ;', 'let ghost wt0 = *w;\n                ')
     g.body_start('let ghost w0 = *w;   // the local variable `old` below shadows old(..)')
     g.attr('#[verifier::rlimit(400)]')   # ~30 exits x 11 postconditions: the largest query of the unit (see DESIGN, solver budget)
+    # ---- Cache::ensure: get_or_update with the constant judge Promote ----------------------------------
+    en = u.under_contract(im.sub(['fn ensure']), ['C13', 'C14', 'C19', 'C01', 'C03', 'C02', 'C16', 'C18', 'C05'])
+    en.air = 'stack::Cache::ensure'
+    en.add_param(W)
+    en.replace("key : impl Into < Key < 'a > >", "key: Key<'a>", 'T11-into-identity')
+    en.replace('fn judge ( _ : CacheHit )', 'fn judge(kv_h: CacheHit)', 'T12-unused-param-name')
+    en.replace('| dst , _ | populate ( dst )', '|dst: &mut File, kv_old: Option<File>| populate(dst)', 'T12-unused-param-name')
+    en.thread(['self . get_or_update'])
+    en.contract(
+        requires=[('', 'old(w).inv() && old(w).must_sync == self.syncs() && levels_wf(%s.levels()) && levels_configured(%s.levels(), old(w).cfg()) '
+                       '&& %s.checker() == self.checker() && (self.writer().is_some() ==> %s.level_wf() && %s.rw(old(w).cfg()))' % (RS, RS, RS, WS, WS)),
+                  ('', 'forall|d: &mut File| #[trigger] call_requires(populate, (d,))')],
+        ensures=[
+            INV, ('', 'final(w).kept_nc(*old(w))'),
+            ('C19 C13:every-returned-handle-is-positioned-at-offset-zero', 'r.is_ok() ==> r.unwrap().offset() == 0'),
+            ('C19:only-a-throw-away-file-is-ever-returned-writable', 'r.is_ok() && r.unwrap().can_write() ==> self.writer().is_none() && !old(w).inodes.contains_key(r.unwrap().ino())'),
+            ('C01:the-returned-file-holds-bytes-supplied-for-exactly-this-key',
+             'r.is_ok() ==> final(w).inodes.contains_key(r.unwrap().ino()) && final(w).supplied.contains((%s, final(w).inodes[r.unwrap().ino()].content))' % NAME),
+            ('C13:ensure-returns-a-write-cache-hit-as-it-is', 'r.is_ok() && %s ==> r.unwrap().ino() == %s.lookup(old(w).files, key).unwrap() && final(w).published == old(w).published '
+                                                              '&& namespace_same(*old(w), *final(w))' % (WHIT, WS)),
+            ('C13:ensure-promotes-a-read-only-hit-into-the-write-cache',
+             'r.is_ok() && !%s && !no_read_copy(%s, old(w).files, key) ==> (exists|idx: int| #[trigger] first_copy(%s.levels(), old(w).files, key, idx, r.unwrap().ino())) '
+             '&& (self.writer().is_some() ==> final(w).published > old(w).published)' % (WHIT, RS, RS)),
+            ('C13:ensure-populates-and-stores-a-missing-value', 'r.is_ok() && !%s && no_read_copy(%s, old(w).files, key) && self.writer().is_some() ==> final(w).published > old(w).published' % (WHIT, RS)),
+            ('C05 C18 C13:once-the-value-is-published-the-call-succeeds-unless-a-real-fault-follows',
+             'r.is_err() ==> final(w).published == old(w).published || final(w).hard_faults > old(w).hard_faults'),
+        ])
+    jd = en.sub(['fn judge'])
+    jd.contract(ensures=[('C13:ensure-always-asks-for-promotion', 'r is Promote'),
+                         ('', 'final(hit_file(kv_h)).ino() == hit_file(kv_h).ino() && final(hit_file(kv_h)).can_write() == hit_file(kv_h).can_write()')])
+    u.dropped.append('T12: the unused parameter `_` of `ensure::judge` is spelled `kv_h` (Verus needs a named parameter to state that the hit is handed back unchanged)')
 
 
 DYN_TY = ('Option < Arc < dyn Fn ( & mut File , & mut File ) -> Result < ( ) > + Sync + Send + std :: panic :: RefUnwindSafe '
